@@ -250,6 +250,7 @@ type fakeAPI struct {
 	gatech           chan *listReq
 	listFaults       map[int]listFault
 	listErr          listErrFlavour // what a lfError fault returns
+	blankListRV      bool           // lists are rendered with an empty collection resourceVersion
 	listLatency      func(k int) time.Duration
 	beforeListReturn func(k int) // called (without the lock) just before a successful List returns
 	nlists           int
@@ -303,6 +304,11 @@ func (a *fakeAPI) snapshotNow() snapshot {
 }
 
 func (a *fakeAPI) render(s snapshot) runtime.Object {
+	if a.blankListRV {
+		// a collection without a resourceVersion of its own (client-go's fake clientsets answer like
+		// this): kcache accepts it - the items carry their versions - and watches from ""
+		return a.mkList("", s.items)
+	}
 	return a.mkList(strconv.Itoa(s.rv), s.items)
 }
 
